@@ -132,7 +132,7 @@ def finish(a, src, meta, patch):
     meta["history"].append(entry)
     shutil.copy(patch, os.path.join(dst, "patch.diff"))
     for f in glob.glob(os.path.join(src, "MUTATION", "*")):
-        if os.path.basename(f) != "patch.diff":
+        if os.path.basename(f) != "patch.diff" and os.path.isfile(f):
             shutil.copy(f, dst)
     notes = os.path.join(src, "MUTATION", "NOTES.md")
     if os.path.exists(notes):
